@@ -406,6 +406,15 @@ def run_pending(case):
             tman.token_interface = pool
             ctx.request_interfaces.append(tman)
             conn.data_received(F.encode(dict(code=F.CSM, token=b"", options=[], payload=b"")))
+            if case.get("orphan"):
+                # two requests to a not yet connected host each open a connection; the later one takes the pool
+                # entry, the earlier one lives on outside the pool with its requests pending on it
+                from aiocoap.transports.tcp import TcpConnection
+
+                conn2 = TcpConnection(pool, _log, None, is_server=False)
+                pool._pool[("peer", 5683)] = conn2
+                conn2.connection_made(FakeStreamTransport())
+                conn2.data_received(F.encode(dict(code=F.CSM, token=b"", options=[], payload=b"")))
             reqs = []
             for i in range(case["n"]):
                 m = Message(code=GET)
@@ -457,7 +466,7 @@ def run_pending(case):
         finally:
             asyncio.set_event_loop(None)
             loop.close()
-    return Outcome(vio, ["end-" + case["end"], "pending=%d" % (case["n"] - len(set(case["answer"])))], case["n"] - len(set(case["answer"])) >= 1)
+    return Outcome(vio, ["end-" + case["end"], "pending=%d" % (case["n"] - len(set(case["answer"])))] + (["connection-not-in-pool"] if case.get("orphan") else []), case["n"] - len(set(case["answer"])) >= 1)
 
 
 # --------------------------------------------------------------------------------------
@@ -567,7 +576,7 @@ def _mutated_case(draw):
 @st.composite
 def _pending_case(draw):
     n = draw(st.integers(1, 4))
-    return {"n": n, "answer": draw(st.lists(st.integers(0, n - 1), max_size=n, unique=True)), "end": draw(st.sampled_from(["release", "abort", "lost", "lost-exc"])), "cuts": sorted(set(draw(st.lists(st.integers(1, 30), max_size=4))))}
+    return {"n": n, "answer": draw(st.lists(st.integers(0, n - 1), max_size=n, unique=True)), "end": draw(st.sampled_from(["release", "abort", "lost", "lost-exc"])), "cuts": sorted(set(draw(st.lists(st.integers(1, 30), max_size=4)))), "orphan": draw(st.sampled_from([False, False, True]))}
 
 
 def selftest():
